@@ -101,6 +101,9 @@ type streamDebugger struct {
 	stackChecks              int
 	opVal, sepBefore         int
 	sepChecks                int
+	condBefore               []int
+	elseBefore               []string
+	condChecks               int
 	// what the last BeforeStackPop snapshot showed (sizes and tops of both stacks)
 	popSeen          bool
 	popDLen, popALen int
@@ -128,6 +131,11 @@ func (d *streamDebugger) ev(kind byte, s *interpreter.State, data []byte) {
 		// NumOps over an instruction outside any conditional: +1 for every opcode above OP_16,
 		// plus the number of public keys for an executed OP_CHECKMULTISIG(VERIFY) - in both eras
 		d.opsBefore, d.opsJudge, d.opsKeys = s.NumOps, len(s.CondStack) == 0, -1
+		d.condBefore = append(d.condBefore[:0], s.CondStack...)
+		d.elseBefore = d.elseBefore[:0]
+		for _, e := range s.ElseStack {
+			d.elseBefore = append(d.elseBefore, string(e))
+		}
 		if n := len(s.DataStack); n > 0 {
 			switch top := s.DataStack[n-1]; {
 			case len(top) == 0:
@@ -150,6 +158,50 @@ func (d *streamDebugger) ev(kind byte, s *interpreter.State, data []byte) {
 				if got := s.NumOps - d.opsBefore; d.incons == "" && got != want {
 					d.incons = fmt.Sprintf("callback %d (AfterStep): NumOps went from %d to %d over the instruction 0x%02x (expected +%d)", len(d.events)-1, d.opsBefore, s.NumOps, d.opVal, want)
 				}
+			}
+		}
+		// the conditional stacks of consecutive step snapshots, bottom first like every other stack:
+		// IF / NOTIF add one entry on top, ELSE changes only the top one, ENDIF removes the top one,
+		// every other instruction leaves both stacks as they were (the entries below the top never move)
+		if d.opVal >= 0 && s.ScriptIdx == d.opScript && !s.IsFinished && d.incons == "" {
+			d.condChecks++
+			keep := len(d.condBefore)
+			switch d.opVal {
+			case 0x63, 0x64: // IF, NOTIF
+				if len(s.CondStack) != keep+1 {
+					keep = -1
+				}
+			case 0x67: // ELSE
+				keep--
+				if len(s.CondStack) != len(d.condBefore) {
+					keep = -2
+				}
+			case 0x68: // ENDIF
+				keep--
+				if len(s.CondStack) != len(d.condBefore)-1 {
+					keep = -2
+				}
+			default:
+				if len(s.CondStack) != keep {
+					keep = -2
+				}
+			}
+			bad := keep < -1 || (keep == -1 && len(d.condBefore) != len(s.CondStack)-1)
+			if keep == -1 {
+				keep = len(d.condBefore)
+			}
+			for i := 0; !bad && i < keep && i < len(s.CondStack); i++ {
+				bad = s.CondStack[i] != d.condBefore[i]
+			}
+			// the else stack exists after Genesis only; where both snapshots have one entry per open
+			// conditional, the entries below the top keep their place and value
+			if !bad && len(d.elseBefore) == len(d.condBefore) && len(s.ElseStack) == len(s.CondStack) {
+				for i := 0; !bad && i < keep && i < len(s.ElseStack) && i < len(d.elseBefore); i++ {
+					bad = string(s.ElseStack[i]) != d.elseBefore[i]
+				}
+			}
+			if bad {
+				d.incons = fmt.Sprintf("callback %d (AfterStep): conditional stacks went from cond=%v else=%q to cond=%v else=%q over the instruction 0x%02x", len(d.events)-1, d.condBefore, d.elseBefore, s.CondStack, s.ElseStack, d.opVal)
 			}
 		}
 		// the code-separator position a snapshot reports only moves when an
@@ -460,6 +512,7 @@ func c19Judge(c *mon.Ctx, in *progInput) {
 	// (c') the snapshots handed to the stack callbacks of an instruction are positioned at that instruction and show the pushed element
 	c.CountN("C19:stack-callback-snapshot-checks", int64(rec.stackChecks))
 	c.CountN("C19:code-separator-position-checks", int64(rec.sepChecks))
+	c.CountN("C19:conditional-stack-frame-checks", int64(rec.condChecks))
 	if rec.incons != "" {
 		good = false
 		c.Violationf("C19:stack-callback-snapshot-inconsistent:"+e, "%s; unlock=%x lock=%x flags=%#x", rec.incons, []byte(in.Unlock), []byte(in.Lock), in.Flags)
